@@ -10,27 +10,45 @@ parser on ordinary and edge structures, see the table at the end of this comment
 `StructureFormatError` in every cell, EXCEPT for the following inputs, which are genuine counter-examples of
 the written-text clause of C12 and therefore appear as explicit decidable hypotheses:
 
-* `kwFree` (no record word `cell` / `dcell`): when this file was written, an XYZ title `cell 1 1 1` or an element
-  named `cell` (xyz, rawxyz, xcfg text) made the DISCUS reader accept the foreign text as a structure WITHOUT atoms
-  (`Structure(title="cell 1 1 1")`, 1 atom `C`, `writeStr("xyz")` → `getParser("discus").parse` → 0 atoms;
-  `getParser("auto")` then reported `discus`), the PDFfit reader likewise — a genuine defect, repaired in the library
-  (56ab7f4: both readers require the `atoms` record; the models follow).  Since the repair the foreign text must contain a
-  `cell` line AND a later line starting with `atoms` (an atom NAMED `atoms`; finding `cross:word-formats:atoms-element`), so
-  `kwFree` is now stronger than needed; the theorems stay as proved.  (`dcell` is excluded for the model's sake: a `dcell`
-  record with fewer than six numbers is outside the PDFfit document type, `PErr.unmodelled`.)
+* `kwFree` (no record word `cell` / `dcell`: `xyzKwFree`, `rawKwFree`, `xcfgKwFree`): when this file was written, an XYZ
+  title `cell 1 1 1` or an element named `cell` (xyz, rawxyz, xcfg text) made the DISCUS reader accept the foreign text as
+  a structure WITHOUT atoms (`Structure(title="cell 1 1 1")`, 1 atom `C`, `writeStr("xyz")` →
+  `getParser("discus").parse` → 0 atoms; `getParser("auto")` then reported `discus`), the PDFfit reader likewise — a
+  genuine defect, repaired in the library (56ab7f4: both readers require the `atoms` record; the models follow:
+  `discusHeader [] _ = pdffitHeader [] _ = .error .sfe`).  Entries `discus_on_xyz`, `pdffit_on_xyz`, `…_on_rawxyz`,
+  `…_on_xcfg`, rows `matrix_xyz`, `matrix_rawxyz`, `matrix_xcfg`, theorem `written_text_detected_models`: proved from
+  "no line begins with `cell`" (`parseDiscus_noCell`, `parsePdffit_noCell`), kept as proved.  (`dcell` is excluded for
+  the model's sake: a `dcell` record with other than six numbers is outside the PDFfit document type,
+  `PErr.unmodelled`.)
+* `atomsFree` (no record word `atoms`: `xyzAtomsFree`, `rawAtomsFree`, `xcfgAtomsFree` — the title's first word, where the
+  text has a title line, and every element name): the second, independent criterion since the repair — "no line begins
+  with `atoms`" (`parseDiscus_noAtoms`, `parsePdffit_noAtoms`; for PDFfit even "no `atoms` line after the first `cell`
+  line", `parsePdffit_noAtomsAfterCell`).  Entries `discus_on_xyz_atoms`, `discus_on_rawxyz_atoms`,
+  `discus_on_xcfg_atoms` need `…AtomsFree` only; `pdffit_on_…_atoms` need `…AtomsFree` and `…DcellFree` (no word `dcell`,
+  again only because the MODEL answers `unmodelled` at a short `dcell` record where the real reader goes on and raises
+  `StructureFormatError` at the end of the header; `pdffit_on_…_atoms'` are the entries without it, conclusion
+  `sfe ∨ unmodelled`).
+* either of the two: `discus_on_…_either` under `…KwFree ∨ …AtomsFree`, `pdffit_on_…_either` under
+  `…KwFree ∨ (…AtomsFree ∧ …DcellFree)`, rows `matrix_xyz'`, `matrix_rawxyz'`, `matrix_xcfg'` and
+  `written_text_detected_models'` under the latter disjunction.  What remains excluded is exactly a text with a `cell`
+  word AND an `atoms` word in record position (finding `cross:word-formats:atoms-element`): XYZ text of the two atoms
+  `cell 1 1 1`, `atoms 0 0 0` is still a DISCUS file without atoms, for the model as for the real reader (example beside
+  `discus_on_xyz_either`), so the disjunction cannot be dropped; the title `cell 1 1 1` over ordinary elements - the
+  original counter-example - is now covered (`xyzAtomsFree` holds) and detected as `xyz` (last example of the file).
 * `rawPdbFree` (the first element of raw XYZ text is not a PDB record name): raw XYZ text of a structure whose
   elements are all named `TITLE` / `END` / `REMARK` … is accepted by the PDB reader with zero atoms.
 
 ```
-written\parser  xyz   rawxyz  discus        pdffit        pdb          xcfg   cif
-xyz             own   SFE     SFE [kwFree]  SFE [kwFree]  SFE          SFE    SFE
-rawxyz          SFE   own     SFE [kwFree]  SFE [kwFree]  SFE [rawPdbFree] SFE SFE
-discus          SFE   SFE     own           SFE           SFE          SFE    SFE
-pdffit          SFE   SFE     SFE           own           SFE          SFE    SFE
-pdb             SFE   SFE     SFE           SFE           own          SFE    SFE
-xcfg            SFE   SFE     SFE [kwFree]  SFE [kwFree]  SFE          own    SFE
-cif             SFE   SFE     SFE           SFE           SFE          SFE    own
+written\parser  xyz   rawxyz  discus      pdffit      pdb          xcfg   cif
+xyz             own   SFE     SFE [W]     SFE [W]     SFE          SFE    SFE
+rawxyz          SFE   own     SFE [W]     SFE [W]     SFE [rawPdbFree] SFE SFE
+discus          SFE   SFE     own         SFE         SFE          SFE    SFE
+pdffit          SFE   SFE     SFE         own         SFE          SFE    SFE
+pdb             SFE   SFE     SFE         SFE         own          SFE    SFE
+xcfg            SFE   SFE     SFE [W]     SFE [W]     SFE          own    SFE
+cif             SFE   SFE     SFE         SFE         SFE          SFE    own
 ```
+([W] = `kwFree`, or `atomsFree` (with `dcellFree` in the pdffit column), or either - see above.)
 (SFE = `StructureFormatError`; no cell of the real table is "accepted and agreeing".)
 -/
 namespace DS.Props.C12Matrix
@@ -887,5 +905,425 @@ example : auto genAutoCfg (modelParse (fun _ => .err "StructureFormatError" "not
       (writeXyz ⟨"NaCl".toList, [⟨"Na".toList, 0, 1/2, -1/3⟩]⟩)) (orderFor genOrderCfg genRegistry (some "x.cif")) =
     .ok "xyz" (.xyz (quantXyz ⟨"NaCl".toList, [⟨"Na".toList, 0, 1/2, -1/3⟩]⟩)) :=
   (written_text_detected_models _ _).1 _ (by decide) (by decide) ⟨_, _, rfl, by decide⟩
+
+/-! ## the second criterion: no `atoms` record (readers repaired by 56ab7f4) -/
+
+/-- `w` is not the word `k` -/
+def wordFree (k w : Str) : Bool := w != k
+
+/-- not the record word `atoms` -/
+def atomsFree (w : Str) : Bool := wordFree kwAtoms w
+/-- not the record word `dcell` -/
+def dcellFree (w : Str) : Bool := wordFree kwDcell w
+
+theorem wordFree_ne {k w : Str} (h : wordFree k w = true) : w ≠ k := by
+  simpa [wordFree] using h
+
+/-- a word that none of the fixed lines of the XYZ / raw XYZ / XCFG writers begins with: it has two characters at
+least, does not start like a number, nor with `N` (`Number of particles`), `A` (`A =`), `H` (`H0(…)`), `e`
+(`entry_count`), `au` (`auxiliary[…]`) -/
+def plainWord (k : Str) : Bool :=
+  match k with
+  | c :: c2 :: _ => !numHead c && c != 'N' && c != 'A' && c != 'H' && c != 'e' && !(c == 'a' && c2 == 'u')
+  | _ => false
+
+theorem plainWord_spec {k : Str} (h : plainWord k = true) :
+    ∃ c c2 t, k = c :: c2 :: t ∧ numHead c = false ∧ c ≠ 'N' ∧ c ≠ 'A' ∧ c ≠ 'H' ∧ c ≠ 'e' ∧ (c = 'a' → c2 ≠ 'u') := by
+  match k, h with
+  | c :: c2 :: t, h =>
+    simp only [plainWord, Bool.and_eq_true, Bool.not_eq_true', bne_iff_ne, ne_eq, Bool.and_eq_false_iff,
+      beq_eq_false_iff_ne] at h
+    obtain ⟨⟨⟨⟨⟨h1, h2⟩, h3⟩, h4⟩, h5⟩, h6⟩ := h
+    refine ⟨c, c2, t, rfl, h1, h2, h3, h4, h5, ?_⟩
+    intro e; rcases h6 with h6 | h6
+    · exact absurd e h6
+    · exact h6
+
+theorem plain_atoms : plainWord kwAtoms = true := by decide
+theorem plain_dcell : plainWord kwDcell = true := by decide
+
+theorem firstWordNot_one {l w k : Str} {ws : List Str} (hs : splitWs l = w :: ws) (h : w ≠ k) :
+    FirstWordNot [k] l := by
+  intro w' ws' e hm
+  rw [hs] at e; cases e
+  simp only [List.mem_cons, List.not_mem_nil, or_false] at hm
+  exact h hm
+
+theorem firstWordNot_pair {l k1 k2 : Str} (h1 : FirstWordNot [k1] l) (h2 : FirstWordNot [k2] l) :
+    FirstWordNot [k1, k2] l := by
+  intro w ws e hm
+  simp only [List.mem_cons, List.not_mem_nil, or_false] at hm
+  rcases hm with rfl | rfl
+  · exact h1 _ ws e (by simp)
+  · exact h2 _ ws e (by simp)
+
+theorem firstWordNot_num {k : Str} (hk : plainWord k = true) {l w : Str} {ws : List Str} (hs : splitWs l = w :: ws)
+    {c : Char} {cs : Str} (hw : w = c :: cs) (hc : numHead c = true) : FirstWordNot [k] l := by
+  apply firstWordNot_one hs
+  obtain ⟨c', c2, t, rfl, hn, _⟩ := plainWord_spec hk
+  intro e; rw [hw] at e; cases e
+  rw [hc] at hn; cases hn
+
+/-- a line that begins with the non-blank character `c`: its first word is not a word that begins otherwise -/
+theorem headNot1 {k l : Str} {c : Char} {cs : Str} (e : l = c :: cs) (h1 : isWs c = false)
+    (hk : ∀ t, k ≠ c :: t) : FirstWordNot [k] l := by
+  obtain ⟨t, rest, es⟩ := splitWs_cons_head (s := cs) h1
+  subst e
+  exact firstWordNot_one es (fun e' => hk t e'.symm)
+
+theorem splitWs_cons2_head {c c2 : Char} {s : Str} (hc : isWs c = false) (hc2 : isWs c2 = false) :
+    ∃ t rest, splitWs (c :: c2 :: s) = (c :: c2 :: t) :: rest := by
+  obtain ⟨t, rest, e⟩ := splitAux_acc s [c2, c] (by simp)
+  refine ⟨t, rest, ?_⟩
+  simp only [splitWs, splitAux, hc, hc2, Bool.false_eq_true, if_false]
+  simpa using e
+
+theorem headNot2 {k l : Str} {c c2 : Char} {cs : Str} (e : l = c :: c2 :: cs) (h1 : isWs c = false)
+    (h2 : isWs c2 = false) (hk : ∀ t, k ≠ c :: c2 :: t) : FirstWordNot [k] l := by
+  obtain ⟨t, rest, es⟩ := splitWs_cons2_head (s := cs) h1 h2
+  subst e
+  exact firstWordNot_one es (fun e' => hk t e'.symm)
+
+/-! ### XYZ text -/
+
+/-- neither the title's first word nor an element is the word `k` -/
+def xyzWordFree (k : Str) (d : XyzS) : Bool :=
+  (match splitWs d.title with | w :: _ => wordFree k w | [] => true) && d.atoms.all (fun a => wordFree k a.el)
+
+/-- hypothesis of the `discus` / `pdffit` columns for XYZ text, second form: neither the title's first word nor an
+element is `atoms` -/
+def xyzAtomsFree (d : XyzS) : Bool := xyzWordFree kwAtoms d
+/-- … nor `dcell` (for the model of the PDFfit reader: a `dcell` record that has not six numbers is `PErr.unmodelled`) -/
+def xyzDcellFree (d : XyzS) : Bool := xyzWordFree kwDcell d
+
+theorem xyz_noWord (k : Str) (hp : plainWord k = true) (d : XyzS) (hr : reprXyz d = true)
+    (hk : xyzWordFree k d = true) : ∀ l ∈ writeXyz d, FirstWordNot [k] l := by
+  simp only [reprXyz, rangeXyz, Bool.and_eq_true] at hr
+  simp only [xyzWordFree, Bool.and_eq_true] at hk
+  intro l hl
+  simp only [writeXyz, List.mem_cons, List.mem_map] at hl
+  rcases hl with rfl | rfl | ⟨a, ha, rfl⟩
+  · obtain ⟨c, cs, e, hc, _, hs⟩ := xyz_first d
+    exact firstWordNot_num hp hs e (by simp [numHead, hc])
+  · intro w ws e hm
+    have := hk.1
+    rw [e] at this
+    simp only [List.mem_cons, List.not_mem_nil, or_false] at hm
+    exact wordFree_ne this hm
+  · have hel := List.all_eq_true.mp hr.2 a ha
+    exact firstWordNot_one (splitWs_xyzLine a hel) (wordFree_ne (List.all_eq_true.mp hk.2 a ha))
+
+/-- XYZ text of a document whose title and elements avoid the word `atoms` has no line that begins with `atoms` -/
+theorem xyz_noAtoms (d : XyzS) (hr : reprXyz d = true) (hk : xyzAtomsFree d = true) :
+    ∀ l ∈ writeXyz d, FirstWordNot [kwAtoms] l := xyz_noWord _ plain_atoms d hr hk
+
+theorem xyz_noDcell (d : XyzS) (hr : reprXyz d = true) (hk : xyzDcellFree d = true) :
+    ∀ l ∈ writeXyz d, FirstWordNot [kwDcell] l := xyz_noWord _ plain_dcell d hr hk
+
+/-- the DISCUS reader rejects XYZ text that has no `atoms` record -/
+theorem discus_on_xyz_atoms (d : XyzS) (hr : reprXyz d = true) (ha : xyzAtomsFree d = true) :
+    parseDiscus (writeXyz d) = .error .sfe ∨ parseDiscus (writeXyz d) = .error .notImpl :=
+  parseDiscus_noAtoms _ (xyz_noAtoms d hr ha)
+
+/-- the PDFfit reader rejects XYZ text that has no `atoms` record (and no `dcell` record, for the model's sake) -/
+theorem pdffit_on_xyz_atoms (d : XyzS) (hr : reprXyz d = true) (ha : xyzAtomsFree d = true)
+    (hd : xyzDcellFree d = true) : parsePdffit (writeXyz d) = .error .sfe :=
+  parsePdffit_noAtoms _ (fun l hl => firstWordNot_pair (xyz_noAtoms d hr ha l hl) (xyz_noDcell d hr hd l hl))
+
+/-- … without the `dcell` condition: the model of the PDFfit reader never accepts -/
+theorem pdffit_on_xyz_atoms' (d : XyzS) (hr : reprXyz d = true) (ha : xyzAtomsFree d = true) :
+    parsePdffit (writeXyz d) = .error .sfe ∨ parsePdffit (writeXyz d) = .error .unmodelled :=
+  (parsePdffit_noAtoms' _ (xyz_noAtoms d hr ha)).imp id And.left
+
+/-- either criterion: no `cell` record or no `atoms` record -/
+theorem discus_on_xyz_either (d : XyzS) (hr : reprXyz d = true) (h : xyzKwFree d = true ∨ xyzAtomsFree d = true) :
+    parseDiscus (writeXyz d) = .error .sfe ∨ parseDiscus (writeXyz d) = .error .notImpl :=
+  h.elim (discus_on_xyz d hr) (discus_on_xyz_atoms d hr)
+
+theorem pdffit_on_xyz_either (d : XyzS) (hr : reprXyz d = true)
+    (h : xyzKwFree d = true ∨ (xyzAtomsFree d = true ∧ xyzDcellFree d = true)) :
+    parsePdffit (writeXyz d) = .error .sfe :=
+  h.elim (pdffit_on_xyz d hr) (fun h => pdffit_on_xyz_atoms d hr h.1 h.2)
+
+/-- non-vacuity of the new hypotheses -/
+example : reprXyz ⟨"NaCl".toList, [⟨"Na".toList, 0, 1/2, -1/3⟩]⟩ = true ∧
+    xyzAtomsFree ⟨"NaCl".toList, [⟨"Na".toList, 0, 1/2, -1/3⟩]⟩ = true ∧
+    xyzDcellFree ⟨"NaCl".toList, [⟨"Na".toList, 0, 1/2, -1/3⟩]⟩ = true := by decide
+/-- the new criterion covers what the old one does not: the title `cell 1 1 1` (the input the cross stream found before
+the repair) fails `xyzKwFree`, satisfies `xyzAtomsFree`, and is rejected by both models -/
+example : reprXyz ⟨"cell 1 1 1".toList, [⟨"C".toList, 0, 0, 0⟩]⟩ = true ∧
+    xyzKwFree ⟨"cell 1 1 1".toList, [⟨"C".toList, 0, 0, 0⟩]⟩ = false ∧
+    xyzAtomsFree ⟨"cell 1 1 1".toList, [⟨"C".toList, 0, 0, 0⟩]⟩ = true ∧
+    xyzDcellFree ⟨"cell 1 1 1".toList, [⟨"C".toList, 0, 0, 0⟩]⟩ = true := by decide
+/-- … and the old one covers what the new one does not: an atom named `atoms` without any `cell` -/
+example : reprXyz ⟨"t".toList, [⟨"atoms".toList, 0, 0, 0⟩]⟩ = true ∧
+    xyzKwFree ⟨"t".toList, [⟨"atoms".toList, 0, 0, 0⟩]⟩ = true ∧
+    xyzAtomsFree ⟨"t".toList, [⟨"atoms".toList, 0, 0, 0⟩]⟩ = false := by decide
+/-- the disjunction cannot be dropped: XYZ text of the atoms `cell 1 1 1`, `atoms 0 0 0` fails both hypotheses, and the
+DISCUS model (like the real reader) accepts it as a structure without atoms -/
+example : xyzKwFree ⟨"t".toList, [⟨"cell".toList, 1, 1, 1⟩, ⟨"atoms".toList, 0, 0, 0⟩]⟩ = false ∧
+    xyzAtomsFree ⟨"t".toList, [⟨"cell".toList, 1, 1, 1⟩, ⟨"atoms".toList, 0, 0, 0⟩]⟩ = false ∧
+    (match parseDiscus (writeXyz ⟨"t".toList, [⟨"cell".toList, 1, 1, 1⟩, ⟨"atoms".toList, 0, 0, 0⟩]⟩) with
+      | .ok r => r.atoms.isEmpty | .error _ => false) = true := by decide +kernel
+/-- why `xyzDcellFree` stands beside `xyzAtomsFree` in the PDFfit entries: the model of the PDFfit reader leaves a
+`dcell` record with two numbers as `unmodelled` (the real reader stores the two numbers and fails at the end of the
+header, `StructureFormatError`) -/
+example : parsePdffit (writeXyz ⟨"dcell 1 2".toList, [⟨"C".toList, 0, 0, 0⟩]⟩) = .error .unmodelled := by decide +kernel
+
+/-! ### raw XYZ text -/
+
+def rawWordFree (k : Str) (atoms : List PAtom) : Bool := atoms.all (fun a => wordFree k a.el)
+/-- no element is named `atoms` -/
+def rawAtomsFree (atoms : List PAtom) : Bool := rawWordFree kwAtoms atoms
+def rawDcellFree (atoms : List PAtom) : Bool := rawWordFree kwDcell atoms
+
+theorem raw_noWord (k : Str) (hp : plainWord k = true) (atoms : List PAtom) (hr : reprRaw atoms = true)
+    (hk : rawWordFree k atoms = true) : ∀ l ∈ writeRaw atoms, FirstWordNot [k] l := by
+  intro l hl
+  simp only [writeRaw, List.mem_map] at hl
+  obtain ⟨a, ha, rfl⟩ := hl
+  rcases raw_line _ hr a ha with ⟨_, hs⟩ | ⟨_, hs⟩
+  · exact firstWordNot_one hs (wordFree_ne (List.all_eq_true.mp hk a ha))
+  · obtain ⟨c, cs, e, hc⟩ := fmtG_numHead 6 a.x
+    exact firstWordNot_num hp hs e hc
+
+theorem raw_noAtoms (atoms : List PAtom) (hr : reprRaw atoms = true) (hk : rawAtomsFree atoms = true) :
+    ∀ l ∈ writeRaw atoms, FirstWordNot [kwAtoms] l := raw_noWord _ plain_atoms atoms hr hk
+
+theorem raw_noDcell (atoms : List PAtom) (hr : reprRaw atoms = true) (hk : rawDcellFree atoms = true) :
+    ∀ l ∈ writeRaw atoms, FirstWordNot [kwDcell] l := raw_noWord _ plain_dcell atoms hr hk
+
+theorem discus_on_rawxyz_atoms (atoms : List PAtom) (hr : reprRaw atoms = true) (ha : rawAtomsFree atoms = true) :
+    parseDiscus (writeRaw atoms) = .error .sfe ∨ parseDiscus (writeRaw atoms) = .error .notImpl :=
+  parseDiscus_noAtoms _ (raw_noAtoms atoms hr ha)
+
+theorem pdffit_on_rawxyz_atoms (atoms : List PAtom) (hr : reprRaw atoms = true) (ha : rawAtomsFree atoms = true)
+    (hd : rawDcellFree atoms = true) : parsePdffit (writeRaw atoms) = .error .sfe :=
+  parsePdffit_noAtoms _ (fun l hl => firstWordNot_pair (raw_noAtoms atoms hr ha l hl) (raw_noDcell atoms hr hd l hl))
+
+theorem pdffit_on_rawxyz_atoms' (atoms : List PAtom) (hr : reprRaw atoms = true) (ha : rawAtomsFree atoms = true) :
+    parsePdffit (writeRaw atoms) = .error .sfe ∨ parsePdffit (writeRaw atoms) = .error .unmodelled :=
+  (parsePdffit_noAtoms' _ (raw_noAtoms atoms hr ha)).imp id And.left
+
+theorem discus_on_rawxyz_either (atoms : List PAtom) (hr : reprRaw atoms = true)
+    (h : rawKwFree atoms = true ∨ rawAtomsFree atoms = true) :
+    parseDiscus (writeRaw atoms) = .error .sfe ∨ parseDiscus (writeRaw atoms) = .error .notImpl :=
+  h.elim (discus_on_rawxyz atoms hr) (discus_on_rawxyz_atoms atoms hr)
+
+theorem pdffit_on_rawxyz_either (atoms : List PAtom) (hr : reprRaw atoms = true)
+    (h : rawKwFree atoms = true ∨ (rawAtomsFree atoms = true ∧ rawDcellFree atoms = true)) :
+    parsePdffit (writeRaw atoms) = .error .sfe :=
+  h.elim (pdffit_on_rawxyz atoms hr) (fun h => pdffit_on_rawxyz_atoms atoms hr h.1 h.2)
+
+/-- non-vacuity; an element `cell` alone (fails `rawKwFree`) is covered by the new criterion -/
+example : reprRaw [⟨"Na".toList, 0, 1/2, -1/3⟩] = true ∧ rawAtomsFree [⟨"Na".toList, 0, 1/2, -1/3⟩] = true ∧
+    rawDcellFree [⟨"Na".toList, 0, 1/2, -1/3⟩] = true := by decide
+example : reprRaw [⟨"cell".toList, 1, 1, 1⟩, ⟨"C".toList, 0, 0, 0⟩] = true ∧
+    rawKwFree [⟨"cell".toList, 1, 1, 1⟩, ⟨"C".toList, 0, 0, 0⟩] = false ∧
+    rawAtomsFree [⟨"cell".toList, 1, 1, 1⟩, ⟨"C".toList, 0, 0, 0⟩] = true ∧
+    rawDcellFree [⟨"cell".toList, 1, 1, 1⟩, ⟨"C".toList, 0, 0, 0⟩] = true := by decide
+/-- the disjunction cannot be dropped: raw XYZ text of the atoms `cell 1 1 1`, `atoms 0 0 0` is a DISCUS file without
+atoms for the model -/
+example : rawKwFree [⟨"cell".toList, 1, 1, 1⟩, ⟨"atoms".toList, 0, 0, 0⟩] = false ∧
+    rawAtomsFree [⟨"cell".toList, 1, 1, 1⟩, ⟨"atoms".toList, 0, 0, 0⟩] = false ∧
+    (match parseDiscus (writeRaw [⟨"cell".toList, 1, 1, 1⟩, ⟨"atoms".toList, 0, 0, 0⟩]) with
+      | .ok r => r.atoms.isEmpty | .error _ => false) = true := by decide +kernel
+
+/-! ### XCFG text -/
+
+def xcfgWordFree (k : Str) (d : XcfgS) : Bool := d.atoms.all (fun a => wordFree k a.el)
+/-- no element is named `atoms` (XCFG text has no title line) -/
+def xcfgAtomsFree (d : XcfgS) : Bool := xcfgWordFree kwAtoms d
+def xcfgDcellFree (d : XcfgS) : Bool := xcfgWordFree kwDcell d
+
+theorem xcfgAtomLines_noWord (k : Str) (hp : plainWord k = true) (L : XLayout) (as : List XAtom)
+    (hel : ∀ a ∈ as, elemOk a.el = true) (hk : ∀ a ∈ as, wordFree k a.el = true) :
+    ∀ prev, ∀ l ∈ xcfgAtomLines L prev as, FirstWordNot [k] l := by
+  induction as with
+  | nil => intro prev l hl; simp [xcfgAtomLines] at hl
+  | cons a as ih =>
+    intro prev l hl
+    have hentry : FirstWordNot [k] (xcfgEntry L a) := by
+      cases hv : entryVals L a with
+      | nil => exact absurd hv (entryVals_ne_nil L a)
+      | cons v vs =>
+        have hs : splitWs (xcfgEntry L a) = g8 v :: vs.map g8 := by
+          rw [xcfgEntry_eq, splitWs_entry, hv]; rfl
+        obtain ⟨c, cs, e, hc⟩ := fmtG_numHead 8 v
+        exact firstWordNot_num hp hs e hc
+    have hrest := ih (fun b hb => hel b (List.mem_cons_of_mem _ hb)) (fun b hb => hk b (List.mem_cons_of_mem _ hb))
+    simp only [xcfgAtomLines, List.mem_append, List.mem_cons] at hl
+    rcases hl with hl | rfl | hl
+    · split at hl
+      · cases hl
+      · simp only [List.mem_cons, List.not_mem_nil, or_false] at hl
+        rcases hl with rfl | rfl
+        · have hs : splitWs (fmtF 0 4 a.mass) = [fmtFbody 4 a.mass] := (PadOf_fmtF 0 4 a.mass).split_last
+          obtain ⟨c, cs, e, hc⟩ := fmtFbody_numHead 4 a.mass
+          exact firstWordNot_num hp hs e hc
+        · exact firstWordNot_one (splitWs_tok_end (IsTok_of_elemOk (hel a List.mem_cons_self)))
+            (wordFree_ne (hk a List.mem_cons_self))
+    · exact hentry
+    · exact hrest _ l hl
+
+theorem xcfg_noWord (k : Str) (hp : plainWord k = true) (d : XcfgS) (hr : reprXcfg d = true)
+    (hk : xcfgWordFree k d = true) : ∀ l ∈ writeXcfg d, FirstWordNot [k] l := by
+  obtain ⟨_, _, _, hwf⟩ := reprXcfg_spec d hr
+  obtain ⟨c, c2, t, rfl, hn, hN, hA, hH, he, hau⟩ := plainWord_spec hp
+  have hdot : c ≠ '.' := by intro e; subst e; revert hn; decide
+  intro l hl
+  rw [writeXcfg_eq, ← writeXcfgL_eq] at hl
+  simp only [List.mem_append, List.mem_cons, List.mem_map, List.not_mem_nil, or_false] at hl
+  rcases hl with ((((((rfl | rfl) | ⟨k, _, rfl⟩) | hl) | rfl) | ⟨p, _, rfl⟩) | rfl) | hl
+  · exact headNot1 (c := 'N') rfl (by decide) (by intro t e; cases e; exact hN rfl)
+  · exact headNot1 (c := 'A') rfl (by decide) (by intro t e; cases e; exact hA rfl)
+  · exact headNot1 (c := 'H') rfl (by decide) (by intro t e; cases e; exact hH rfl)
+  · split at hl
+    · simp only [List.mem_cons, List.not_mem_nil, or_false] at hl; subst hl
+      exact headNot1 (c := '.') rfl (by decide) (by intro t e; cases e; exact hdot rfl)
+    · cases hl
+  · exact headNot1 (c := 'e') rfl (by decide) (by intro t e; cases e; exact he rfl)
+  · exact headNot2 (c := 'a') (c2 := 'u') rfl (by decide) (by decide) (by intro t e; cases e; exact hau rfl rfl)
+  · intro w ws e; cases e
+  · exact xcfgAtomLines_noWord _ hp _ d.atoms (fun a ha => (hwf a ha).1) (fun a ha => List.all_eq_true.mp hk a ha) none l hl
+
+theorem xcfg_noAtoms (d : XcfgS) (hr : reprXcfg d = true) (hk : xcfgAtomsFree d = true) :
+    ∀ l ∈ writeXcfg d, FirstWordNot [kwAtoms] l := xcfg_noWord _ plain_atoms d hr hk
+
+theorem xcfg_noDcell (d : XcfgS) (hr : reprXcfg d = true) (hk : xcfgDcellFree d = true) :
+    ∀ l ∈ writeXcfg d, FirstWordNot [kwDcell] l := xcfg_noWord _ plain_dcell d hr hk
+
+theorem discus_on_xcfg_atoms (d : XcfgS) (hr : reprXcfg d = true) (ha : xcfgAtomsFree d = true) :
+    parseDiscus (writeXcfg d) = .error .sfe ∨ parseDiscus (writeXcfg d) = .error .notImpl :=
+  parseDiscus_noAtoms _ (xcfg_noAtoms d hr ha)
+
+theorem pdffit_on_xcfg_atoms (d : XcfgS) (hr : reprXcfg d = true) (ha : xcfgAtomsFree d = true)
+    (hd : xcfgDcellFree d = true) : parsePdffit (writeXcfg d) = .error .sfe :=
+  parsePdffit_noAtoms _ (fun l hl => firstWordNot_pair (xcfg_noAtoms d hr ha l hl) (xcfg_noDcell d hr hd l hl))
+
+theorem pdffit_on_xcfg_atoms' (d : XcfgS) (hr : reprXcfg d = true) (ha : xcfgAtomsFree d = true) :
+    parsePdffit (writeXcfg d) = .error .sfe ∨ parsePdffit (writeXcfg d) = .error .unmodelled :=
+  (parsePdffit_noAtoms' _ (xcfg_noAtoms d hr ha)).imp id And.left
+
+theorem discus_on_xcfg_either (d : XcfgS) (hr : reprXcfg d = true)
+    (h : xcfgKwFree d = true ∨ xcfgAtomsFree d = true) :
+    parseDiscus (writeXcfg d) = .error .sfe ∨ parseDiscus (writeXcfg d) = .error .notImpl :=
+  h.elim (discus_on_xcfg d hr) (discus_on_xcfg_atoms d hr)
+
+theorem pdffit_on_xcfg_either (d : XcfgS) (hr : reprXcfg d = true)
+    (h : xcfgKwFree d = true ∨ (xcfgAtomsFree d = true ∧ xcfgDcellFree d = true)) :
+    parsePdffit (writeXcfg d) = .error .sfe :=
+  h.elim (pdffit_on_xcfg d hr) (fun h => pdffit_on_xcfg_atoms d hr h.1 h.2)
+
+/-- non-vacuity; an element `cell` (fails `xcfgKwFree`) is covered by the new criterion -/
+example : xcfgAtomsFree ⟨[3, 0, 0, 0, 3, 0, 0, 0, 3], false, [],
+    [⟨"C".toList, 12, ⟨0, 0, 0⟩, 1, [0, 0, 0, 0, 0, 0, 0, 0, 0], none, []⟩]⟩ = true ∧
+  xcfgDcellFree ⟨[3, 0, 0, 0, 3, 0, 0, 0, 3], false, [],
+    [⟨"C".toList, 12, ⟨0, 0, 0⟩, 1, [0, 0, 0, 0, 0, 0, 0, 0, 0], none, []⟩]⟩ = true ∧
+  reprXcfg ⟨[3, 0, 0, 0, 3, 0, 0, 0, 3], false, [],
+    [⟨"C".toList, 12, ⟨0, 0, 0⟩, 1, [0, 0, 0, 0, 0, 0, 0, 0, 0], none, []⟩]⟩ = true := by decide +kernel
+example : xcfgKwFree ⟨[3, 0, 0, 0, 3, 0, 0, 0, 3], false, [],
+    [⟨"cell".toList, 12, ⟨0, 0, 0⟩, 1, [0, 0, 0, 0, 0, 0, 0, 0, 0], none, []⟩]⟩ = false ∧
+  xcfgAtomsFree ⟨[3, 0, 0, 0, 3, 0, 0, 0, 3], false, [],
+    [⟨"cell".toList, 12, ⟨0, 0, 0⟩, 1, [0, 0, 0, 0, 0, 0, 0, 0, 0], none, []⟩]⟩ = true ∧
+  xcfgDcellFree ⟨[3, 0, 0, 0, 3, 0, 0, 0, 3], false, [],
+    [⟨"cell".toList, 12, ⟨0, 0, 0⟩, 1, [0, 0, 0, 0, 0, 0, 0, 0, 0], none, []⟩]⟩ = true ∧
+  reprXcfg ⟨[3, 0, 0, 0, 3, 0, 0, 0, 3], false, [],
+    [⟨"cell".toList, 12, ⟨0, 0, 0⟩, 1, [0, 0, 0, 0, 0, 0, 0, 0, 0], none, []⟩]⟩ = true := by decide +kernel
+
+/-! ### rows of the matrix and the detection theorem under either criterion -/
+
+theorem swallowed_discus {cifP : List Str → Outcome Res} {t : List Str}
+    (h : parseDiscus t = .error .sfe ∨ parseDiscus t = .error .notImpl) :
+    Swallowed genAutoCfg (modelParse cifP t) "discus" := by
+  rcases lift_sfe_or (tag := Res.discus) h with h | h
+  · exact swallowed_sfe (by simpa [modelParse] using h)
+  · exact swallowed_notImpl (by simpa [modelParse] using h)
+
+theorem swallowed_pdffit {cifP : List Str → Outcome Res} {t : List Str} (h : parsePdffit t = .error .sfe) :
+    Swallowed genAutoCfg (modelParse cifP t) "pdffit" :=
+  swallowed_sfe (by simpa [modelParse] using lift_sfe (tag := Res.pdffit) h)
+
+/-- row `xyz` under either criterion -/
+theorem matrix_xyz' (cifP : List Str → Outcome Res) (d : XyzS) (hr : reprXyz d = true)
+    (hk : xyzKwFree d = true ∨ (xyzAtomsFree d = true ∧ xyzDcellFree d = true))
+    (hcif : Swallowed genAutoCfg (modelParse cifP (writeXyz d)) "cif") :
+    Row cifP (writeXyz d) "xyz" (.xyz (quantXyz d)) := by
+  have hr' := hr
+  simp only [reprXyz, rangeXyz, Bool.and_eq_true] at hr'
+  refine ⟨by simp [modelParse, parseXyz_writeXyz d hr'.2, lift], ?_⟩
+  apply forall_formats (P := fun f => f ≠ "xyz" → Swallowed genAutoCfg (modelParse cifP (writeXyz d)) f)
+  · intro _; exact hcif
+  · intro _; exact swallowed_discus (discus_on_xyz_either d hr (hk.imp id And.left))
+  · intro _; exact swallowed_sfe (by simpa [modelParse] using lift_sfe (tag := Res.pdb) (pdb_on_xyz d))
+  · intro _; exact swallowed_pdffit (pdffit_on_xyz_either d hr hk)
+  · intro _; exact swallowed_sfe (by simpa [modelParse] using lift_sfe (tag := Res.rawxyz) (rawxyz_on_xyz d))
+  · intro _; exact swallowed_sfe (by simpa [modelParse] using lift_sfe (tag := Res.xcfg) (xcfg_on_xyz d))
+  · intro h; exact absurd rfl h
+
+/-- row `rawxyz` under either criterion -/
+theorem matrix_rawxyz' (cifP : List Str → Outcome Res) (d : List PAtom) (hr : reprRaw d = true) (hne : d ≠ [])
+    (hk : rawKwFree d = true ∨ (rawAtomsFree d = true ∧ rawDcellFree d = true)) (hp : rawPdbFree d = true)
+    (hcif : Swallowed genAutoCfg (modelParse cifP (writeRaw d)) "cif") :
+    Row cifP (writeRaw d) "rawxyz" (.rawxyz (quantRaw d)) := by
+  refine ⟨by simp [modelParse, parseRaw_writeRaw d hr, lift], ?_⟩
+  apply forall_formats (P := fun f => f ≠ "rawxyz" → Swallowed genAutoCfg (modelParse cifP (writeRaw d)) f)
+  · intro _; exact hcif
+  · intro _; exact swallowed_discus (discus_on_rawxyz_either d hr (hk.imp id And.left))
+  · intro _; exact swallowed_sfe (by simpa [modelParse] using lift_sfe (tag := Res.pdb) (pdb_on_rawxyz d hr hne hp))
+  · intro _; exact swallowed_pdffit (pdffit_on_rawxyz_either d hr hk)
+  · intro h; exact absurd rfl h
+  · intro _; exact swallowed_sfe (by simpa [modelParse] using lift_sfe (tag := Res.xcfg) (xcfg_on_rawxyz d hr))
+  · intro _; exact swallowed_sfe (by simpa [modelParse] using lift_sfe (tag := Res.xyz) (xyz_on_rawxyz d hr hne))
+
+/-- row `xcfg` under either criterion -/
+theorem matrix_xcfg' (cifP : List Str → Outcome Res) (d : XcfgS) (hr : reprXcfg d = true)
+    (hk : xcfgKwFree d = true ∨ (xcfgAtomsFree d = true ∧ xcfgDcellFree d = true))
+    (hcif : Swallowed genAutoCfg (modelParse cifP (writeXcfg d)) "cif") :
+    Row cifP (writeXcfg d) "xcfg" (.xcfg (quantXcfg d)) := by
+  refine ⟨by simp [modelParse, parseXcfg_writeXcfg d hr, lift], ?_⟩
+  apply forall_formats (P := fun f => f ≠ "xcfg" → Swallowed genAutoCfg (modelParse cifP (writeXcfg d)) f)
+  · intro _; exact hcif
+  · intro _; exact swallowed_discus (discus_on_xcfg_either d hr (hk.imp id And.left))
+  · intro _; exact swallowed_sfe (by simpa [modelParse] using lift_sfe (tag := Res.pdb) (pdb_on_xcfg d))
+  · intro _; exact swallowed_pdffit (pdffit_on_xcfg_either d hr hk)
+  · intro _; exact swallowed_sfe (by simpa [modelParse] using lift_sfe (tag := Res.rawxyz) (rawxyz_on_xcfg d))
+  · intro h; exact absurd rfl h
+  · intro _; exact swallowed_sfe (by simpa [modelParse] using lift_sfe (tag := Res.xyz) (xyz_on_xcfg d))
+
+/-- **Written text is detected (models), either criterion.**  `written_text_detected_models` with the hypotheses on the
+words of the document weakened to: no word `cell` / `dcell` (`…KwFree`, the criterion the theorem was first proved with),
+OR no word `atoms` and no word `dcell` (`…AtomsFree`, `…DcellFree`: since 56ab7f4 the DISCUS and PDFfit readers require an
+`atoms` record).  The rows `discus`, `pdffit`, `pdb` are unconditional as before. -/
+theorem written_text_detected_models' (cifP : List Str → Outcome Res) (fn : Option String) :
+    (∀ d : XyzS, reprXyz d = true → (xyzKwFree d = true ∨ (xyzAtomsFree d = true ∧ xyzDcellFree d = true)) →
+      CifRejects cifP (writeXyz d) →
+      auto genAutoCfg (modelParse cifP (writeXyz d)) (orderFor genOrderCfg genRegistry fn) = .ok "xyz" (.xyz (quantXyz d))) ∧
+    (∀ d : List PAtom, reprRaw d = true → d ≠ [] →
+      (rawKwFree d = true ∨ (rawAtomsFree d = true ∧ rawDcellFree d = true)) → rawPdbFree d = true →
+      CifRejects cifP (writeRaw d) →
+      auto genAutoCfg (modelParse cifP (writeRaw d)) (orderFor genOrderCfg genRegistry fn) = .ok "rawxyz" (.rawxyz (quantRaw d))) ∧
+    (∀ d : DiscusS, reprDiscus d = true → d.atoms ≠ [] → CifRejects cifP (writeDiscus d) →
+      auto genAutoCfg (modelParse cifP (writeDiscus d)) (orderFor genOrderCfg genRegistry fn) = .ok "discus" (.discus (quantDiscus d))) ∧
+    (∀ d : PdffitS, reprPdffit d = true → CifRejects cifP (writePdffit d) →
+      auto genAutoCfg (modelParse cifP (writePdffit d)) (orderFor genOrderCfg genRegistry fn) = .ok "pdffit" (.pdffit (quantPdffit d))) ∧
+    (∀ d : PdbS, reprPdb d = true → CifRejects cifP (writePdb d) →
+      auto genAutoCfg (modelParse cifP (writePdb d)) (orderFor genOrderCfg genRegistry fn) = .ok "pdb" (.pdb (quantPdb d))) ∧
+    (∀ d : XcfgS, reprXcfg d = true → (xcfgKwFree d = true ∨ (xcfgAtomsFree d = true ∧ xcfgDcellFree d = true)) →
+      CifRejects cifP (writeXcfg d) →
+      auto genAutoCfg (modelParse cifP (writeXcfg d)) (orderFor genOrderCfg genRegistry fn) = .ok "xcfg" (.xcfg (quantXcfg d))) :=
+  ⟨fun d hr hk hc => detected_of_row cifP _ _ _ (by decide) (matrix_xyz' cifP d hr hk hc) fn,
+   fun d hr hne hk hp hc => detected_of_row cifP _ _ _ (by decide) (matrix_rawxyz' cifP d hr hne hk hp hc) fn,
+   (written_text_detected_models cifP fn).2.2.1,
+   (written_text_detected_models cifP fn).2.2.2.1,
+   (written_text_detected_models cifP fn).2.2.2.2.1,
+   fun d hr hk hc => detected_of_row cifP _ _ _ (by decide) (matrix_xcfg' cifP d hr hk hc) fn⟩
+
+/-- non-vacuity on the input that was the counter-example before the repair: XYZ text with the title `cell 1 1 1`, under a
+misleading file name, is detected as `xyz` (the right disjunct holds, the left one does not) -/
+example : auto genAutoCfg (modelParse (fun _ => .err "StructureFormatError" "not a CIF")
+      (writeXyz ⟨"cell 1 1 1".toList, [⟨"C".toList, 0, 0, 0⟩]⟩)) (orderFor genOrderCfg genRegistry (some "x.discus")) =
+    .ok "xyz" (.xyz (quantXyz ⟨"cell 1 1 1".toList, [⟨"C".toList, 0, 0, 0⟩]⟩)) :=
+  (written_text_detected_models' _ _).1 _ (by decide) (Or.inr (by decide)) ⟨_, _, rfl, by decide⟩
 
 end DS.Props.C12Matrix
